@@ -29,7 +29,7 @@ func (c19) Assumptions() []string {
 }
 
 func (c19) Batches(tier string, seed uint64) []core.Batch {
-	return spread("graph", 16, tierN(tier, 700, 4000))
+	return append(spread("graph", 16, tierN(tier, 700, 4000)), conc(tierN(tier, 40, 300), "graph")...)
 }
 
 func (c19) Mandatory(tier string) []string {
@@ -481,6 +481,9 @@ func (p c19) gen(r *core.Rand) c19Case {
 }
 
 func (p c19) RunBatch(t *core.T, b core.Batch) {
+	if concDispatch(p, t, b) {
+		return
+	}
 	r := t.Rand("graph", fmt.Sprint(b.Arg))
 	for i := 0; i < b.N; i++ {
 		cs := p.gen(r)
